@@ -61,6 +61,13 @@ stop_machine()}; states may in addition return final_status(IDLE, 'done') / fina
      final_status() was given after the stop request, and the given final status when the run ended by returning
      final_status(...).  In all other cases (plain Finish, error, custom cleanup) only "not busy" is demanded: the
      statement says "its final or stopped status" and the code keeps whatever idle_status was set last.
+  S3 each module reports the status of its OWN state functions: the node has two more HasStates modules, n (another
+     class) and k (a subclass of m's class overriding state A), whose state functions have the same names as m's but other
+     status decorations; operations probeN / probeK (profile 'retry') use them in between in any order: start in state A
+     -> the status must be the module's own decoration, poll, stop, poll -> (IDLE, 'stopped'); and m started from rest
+     must show the decoration of its own state function.  Every execution re-runs the real initModule of the three
+     modules and puts class-level containers of frappy.states / the harness classes back to their start-up content (a new
+     execution stands for a new process).
   stop_machine on a machine that is not active is a documented no-op (also when a start is still pending); the
   reference follows that reading.
 """
@@ -979,9 +986,9 @@ def bounds(tier):
 
 MODULE_OPS = ('poll', 'startA', 'startBK', 'stop')
 # use of the other modules of the node (same state names, other status decorations) in between, in any order; only in the
-# profiles with the smallest state graphs (the dimension does not depend on the script profile)
+# profile with the smallest state graph (the dimension does not depend on the script profile)
 PROBE_OPS = ('probeN', 'probeK')
-PROBE_PROFILES = ('retry', 'cleanupL')
+PROBE_PROFILES = ('retry',)
 
 
 def sm_shards(tier):
@@ -1025,7 +1032,8 @@ def run(ctx):
         'raises; cleanup K returns None / a state / non-callable / raises), the entries being chosen among the calls '
         'actually made (explore_deviations per operation); nodes de-duplicated on (implementation state, reference state, '
         'remaining budget). module_status: the same on a real HasStates+Drivable module with operations '
-        f'{list(MODULE_OPS)}, to closure, <= {b["mbudget"]} entries. '
+        f'{list(MODULE_OPS)} (+ {list(PROBE_OPS)} = use of two other HasStates modules with equally named, differently '
+        f'decorated state functions, profile {list(PROBE_PROFILES)}), to closure, <= {b["mbudget"]} entries. '
         'evaluations = executions (each replays a whole history); distinct_nontrivial = executions whose last operation '
         'did more than retry (finish, transition, interrupt, cleanup, failure); states = distinct canonical states per shard '
         '(profile x maxloops), summed; transitions = operations + scripted function calls executed')
